@@ -65,7 +65,7 @@ def o_from_fn(ev, st, t, site):
 def o_map(ev, st, t, site):
     it = seqmodel._deref(st, seqmodel._arg(ev, st, t, 0))
     clo = seqmodel._arg(ev, st, t, 1)
-    if it is None or clo is None or it[0] not in ("iterv", "arr", "enum", "fromfn", "mapped", "drainv"):
+    if it is None or clo is None or it[0] not in ("iterv", "itermut", "arr", "enum", "fromfn", "mapped", "drainv"):
         return False
     return seqmodel._set_dest(st, t, ("mapped", it, clo))
 
